@@ -644,7 +644,9 @@ impl<C: Serialize + DeserializeOwned + Clone + Send + 'static> AnySection for E1
         }
         let exhausted = sh.iter.lock().unwrap().is_none();
         let cases = sh.cases.load(Ordering::SeqCst);
-        let exhaustive = exhausted && !capped;
+        // `exhausted` means every case was pulled, and pulled batches are always processed to the end,
+        // so a budget that runs out while the last batches drain does not make the run partial
+        let exhaustive = exhausted && hung < 12;
         for c in [sh.mid_case.lock().unwrap().take(), sh.last_case.lock().unwrap().take()].into_iter().flatten() {
             rep.sample(json!({"section": name, "case": serde_json::to_value(&c).unwrap_or(Value::Null)}));
         }
